@@ -8,6 +8,9 @@ ROOT = Path('/verif/seeded')
 
 
 def verdict(meta):
+    if meta.get("note") or meta.get("superseded"):
+        # a stored change that a later fix neutralised (seeded/<id>/superseded.txt, copied into meta.json["note"])
+        return "superseded — " + (meta.get("note") or "").replace("|", "/").replace("\n", " ")[:220]
     out = []
     for cid, r in sorted(meta.get("our_checks", {}).items()):
         viol = [l for l in r["lines"] if l.startswith("VIOLATION")]
@@ -34,13 +37,18 @@ def main():
                      "yes" if meta.get("existing_tests_pass") else "NO", verdict(meta)))
     lines = ["# Seeded changes", "",
              "Produced by independent sub-agents (property text + scratch worktree only), validated by `tools/seedcheck.py`.",
-             "`_a`/`_b` = round 1, `_c`/`_d` = round 2.  Columns: demo fails with / passes without the change; the core",
-             "existing tests still pass with it; verdict of our quick check(s) run against a scratch tree with the change.", "",
+             "`_a`/`_b` = round 1, `_c`/`_d` = round 2, `_e`/`_f` = round 3 (made against the tree with all fixes of that",
+             "time), `_g` = round 4 (one per property, made against the tree with the fixes up to F47).  Columns: demo fails",
+             "with / passes without the change; the core existing tests still pass with it; verdict of our quick check(s) run",
+             "against a scratch tree with the change.  Each verdict is the one recorded in the change's `meta.json`, obtained at",
+             "the /repo commit stored there as `checked_at_repo_commit` (DESIGN.md 11.6 says which re-validation that was).",
+             "`superseded` = the change was neutralised by a later `fix:` commit (reason in `seeded/<id>/superseded.txt`); it is",
+             "kept for the record and is not a live seed.", "",
              "| change | what | demo confirms | tests pass | our check |", "|---|---|---|---|---|"]
     for r in rows:
         lines.append("| " + " | ".join(r) + " |")
     (ROOT / "README.md").write_text("\n".join(lines) + "\n")
-    print(f"{len(rows)} changes; missed: {[r[0] for r in rows if 'MISSED' in r[4]]}; tie-only: {[r[0] for r in rows if 'no failing input' in r[4] and 'concrete' not in r[4]]}")
+    print(f"{len(rows)} changes; superseded: {[r[0] for r in rows if r[4].startswith('superseded')]}; missed: {[r[0] for r in rows if 'MISSED' in r[4]]}; tie-only: {[r[0] for r in rows if 'no failing input' in r[4] and 'concrete' not in r[4]]}")
 
 
 main()
